@@ -257,6 +257,12 @@ def run(ctx, prog, rule="R-TAG"):
                     possible = set(ts) if possible is None else possible & ts
                     basis.append("%s%s" % ("" if pol else "!", fn.text(cond)))
             wr = is_write(fn, i)
+            # a tag assignment that dominates the access overrides every
+            # guard evaluated before it (e.g. the debug-build assertion
+            # `type_ == Null` at the top of the setters)
+            if asg and any(fn.stmt_dominates(j, i) for j, _ in asg):
+                possible = None
+                basis = []
             if possible is None and asg:
                 # the tag this function assigns on the path of the access:
                 # the closest assignment that dominates it, else (writes
